@@ -52,6 +52,32 @@ CLAIMED = {
         note="Trusted: Coq kernel, translator, scheduler harness; queue.Queue FIFO/atomic/unbounded; code between two queue operations is thread-local; mapped function terminates.",
         technique="Coq proof (counting + FIFO invariants, decreasing measure, over all schedules) + AST-generated kernels + controlled-scheduler trace replay",
         design="7/C13"),
+    "C04": dict(
+        text="Coq theorem (merge_spec, by induction on the recursion of merge_shard_infos transcribed in Model/Meta.v, partition tests and assertion switch regenerated from the source, "
+             "every statement of the function pinned by the translator): whenever the merge returns, the subtree it rebuilt is exact (every shard count, list total, child summary and digest; "
+             "every listed shard present in the directory of the list naming it), nothing outside the subtree changed, no shard entry was added or lost, local well-formedness is preserved. "
+             "PARTIAL: the lift over whole histories (fillers + write_config, no duplicate / no unlisted shard, in-memory = on-disk description, termination of the merge) is not a theorem; "
+             "it is checked by evaluating the executable oracle exact_all on the model and an independent exactness audit on the real directory after every session of every generated history, "
+             "with the model compared to the implementation list file by list file.",
+        note="Trusted: Coq kernel, translator, harness; hand transcription of merge/write_config/close_shard (pinned + compared after every session); pydantic JSON round trip; shard writers; digest = write event.",
+        technique="Coq proof (induction over the merge recursion: exactness, footprint, preservation) + AST-pinned transcription + differential histories with an exactness oracle",
+        design="7/C04"),
+    "C08": dict(
+        text="Coq theorem: the merge ending every session keeps every shard entry of every list and every shard file, and touches no list outside the merged split (corollary of merge_spec); "
+             "the generated switch shows the over-strict assertion is gone and the formerly failing reuse histories complete with exactly old+new examples (vm_compute instance). "
+             "PARTIAL as C04: append-only over whole histories is checked on the implementation: after every session of every generated history (root/sub/nested/reused directories, multi-writer, "
+             "reopen or keep) each split returns exactly the multiset of all examples accepted so far; Dataset.create on an existing dataset must raise and change no file.",
+        note="Trusted as C04.",
+        technique="Coq proof (merge preserves entries) + differential histories with a multiset oracle",
+        design="7/C08"),
+    "C03": dict(
+        text="Coq theorem: within one filler context the recorded shards of a split, concatenated in close order (= list order = unshuffled iteration order), are exactly the accepted writes in "
+             "caller order, for every eps, interleaving of splits, metadata use and rejected writes. PARTIAL: order across list files (multi-writer argument order, nested trees) and determinism of "
+             "every interface are checked on the implementation: per-session subsequence oracle on every generated history, and every unshuffled interface x file_parallelism x two passes on one handle x fresh handles "
+             "must return the depth-first write-order sequence.",
+        note="Trusted as C04; ThreadPoolExecutor.map / Pool.imap ordered; tf.data deterministic interleave (oracle).",
+        technique="Coq proof (filler refinement to the list of accepted writes) + differential histories and cross-interface determinism runs",
+        design="7/C03"),
 }
 REASON_TODO = "not yet built: the Coq model/theorems for this property are scheduled later in the build order of DESIGN.md section 10; nothing is claimed until its check exists"
 
